@@ -48,6 +48,89 @@ def fns_of(fx, ty):
     return fw, fr, fs, ft
 
 
+INCONCLUSIVE = set()
+_ID = re.compile(r"^[A-Za-z_][\w.]*$")
+_ROLE = re.compile(r"^(?:[A-Za-z_]\w*|expr\{[\w,.]*\}|len\([A-Za-z_][\w.]*\)|count(?::[\w.]+)?|const:\d+|deschdr)$")
+
+
+def vocab_issue_lin(lf):
+    """a term of a size form that is not a constant, len(<field>), size(<field>) or a sum over a named collection"""
+    for t in lf:
+        if t is None:
+            continue
+        if isinstance(t, tuple) and t and t[0] == "sum":
+            if not _ID.match(str(t[1])):
+                return "sum over %s" % (t[1],)
+            r = vocab_issue_lin(dict(t[2]))
+            if r:
+                return r
+            continue
+        if isinstance(t, tuple) and t and t[0] == "acc":
+            return "accumulator %s" % t[1]
+        m = re.match(r"^(len|size)\((.*)\)$", str(t))
+        if m and _ID.match(m.group(2)):
+            continue
+        if re.match(r"^\(.*\)\*\(.*\)$", str(t)):
+            continue          # product term: compared textually as before
+        return str(t)[:60]
+    return None
+
+
+def vocab_issue_tokens(toks):
+    """a role in a canonical layout that is not a field name / reserved / count expression"""
+    for t in toks:
+        if not isinstance(t, tuple):
+            continue
+        for x in t[1:]:
+            if isinstance(x, str):
+                if not _ROLE.match(x):
+                    return x[:60]
+            elif isinstance(x, tuple):
+                r = vocab_issue_tokens(x if x and isinstance(x[0], tuple) else [x])
+                if r:
+                    return r
+    return None
+
+
+_ATOM = re.compile(r"^(?:version==\d+|flags&0x[0-9a-fA-F]+|(?:some|empty)\([A-Za-z_][\w.]*\)|self@\w+|[A-Za-z_][\w.]*(?:==|>|<|>=|<=|!=)-?\d+)$")
+
+
+def fixed_of(adt):
+    fixed = {}
+    if adt and adt["kind"] == "Struct":
+        for fld in adt["variants"][0]["fields"]:
+            t = fld["ty"]
+            if "array" in t and t.get("len") is not None and t["array"].get("p") == "u8":
+                fixed[fld["name"]] = t["len"]
+            if "array" in t and t.get("len") is not None:
+                fixed["#" + fld["name"]] = t["len"]
+    return fixed
+
+
+def model_vocab_issue(fx, m, adt, side=None):
+    """first construct of box model `m` that lies outside the layout vocabulary (None when everything is understood):
+    roles of canonical tokens, terms of the size forms, condition atoms whose variable is neither a field nor version/flags"""
+    fields = {f["name"] for f in adt["variants"][0]["fields"]} if adt and adt["kind"] == "Struct" else set()
+    fixed = fixed_of(adt)
+    L2.set_fixed(fixed)
+    for cell in m.cells:
+        for a in cell["A"]:
+            if a.startswith("?"):
+                return "condition " + a[:50]
+            var = re.split(r"==|&0x|@|>=|<=|!=|>|<", a.replace("some(", "").replace("empty(", "").rstrip(")"))[0].split(".")[0]
+            if not _ATOM.match(a) or (var not in fields and var not in ("version", "flags", "self", "size") and a not in {v[0] for v in m.cp.values()} and not a.startswith(("some(", "empty("))):
+                return "condition on `%s`" % a[:50]
+        for sd in (("w", "r") if side is None else (side,)):
+            u = vocab_issue_tokens(L2.canon(cell[sd], sd))
+            if u:
+                return u
+        if side in (None, "w"):
+            u = vocab_issue_lin(L2.tokens_size(fx, cell["w"], fixed)) or vocab_issue_lin(cell["size"])
+            if u:
+                return u
+    return None
+
+
 def size_fn_atoms(fx, fn, depth=0, seen=None):
     """condition atoms of a size function (following self.get_size())"""
     out = []
@@ -242,6 +325,7 @@ def s3_exceptions(fx):
 
 
 def run(fx, chk, tier):
+    INCONCLUSIVE.clear()
     chk.rule("S1", "write_box starts with BoxHeader::new(self.box_type(), self.box_size()).write and returns that size on success")
     chk.rule("S2", "box_size() equals the byte count of the write layout in every cell of the shape space")
     chk.rule("S3", "every Ok path of read_box ends with a reposition to start + size after the last read")
@@ -288,6 +372,9 @@ def run(fx, chk, tier):
                 t = fld["ty"]
                 if "array" in t and t.get("len") is not None and t["array"].get("p") == "u8":
                     fixed[fld["name"]] = t["len"]
+                if "array" in t and t.get("len") is not None:
+                    fixed["#" + fld["name"]] = t["len"]
+        L2.set_fixed(fixed)
         # atoms whose variable is not a field of the struct (and not coupled to one) vary only on the decoder side:
         # the decoder may accept more shapes than the encoder produces, so they are quantified existentially
         def shared(atom):
@@ -298,6 +385,7 @@ def run(fx, chk, tier):
             key = tuple(sorted((k, v) for k, v in cell["A"].items() if shared(k)))
             groups.setdefault(key, []).append(cell)
         s2_bad = s5_bad = None
+        unk2 = unk5 = None       # constructs outside the extractor's vocabulary (comparison would be meaningless)
         lvl = LEVELS.get(s, 1)
         for key, cells in sorted(groups.items()):
             ncells += len(cells)
@@ -310,12 +398,19 @@ def run(fx, chk, tier):
                 A = cell["A"]
                 sw = const_children(fx, adt, L2.tokens_size(fx, cell["w"], fixed))
                 sz = const_children(fx, adt, cell["size"])
+                u = vocab_issue_lin(sw) or vocab_issue_lin(sz)
+                if u and unk2 is None:
+                    unk2 = u
                 if L2.lin_key(sw) == L2.lin_key(sz) or coupled_away(fx, m, cell, sw, sz):
                     ok2 = True
                 elif g2 is None:
                     g2 = (A, L2.lin_str(sw), L2.lin_str(sz), cell.get("size_notes"))
                 empties = {k for k, v in A.items() if v and k.startswith("empty(")}
-                d = L2.first_diff(L2.canon(cell["w"], "w"), L2.canon(cell["r"], "r"), "", empties)
+                cw, cr = L2.canon(cell["w"], "w"), L2.canon(cell["r"], "r")
+                u = vocab_issue_tokens(cw) or vocab_issue_tokens(cr)
+                if u and unk5 is None:
+                    unk5 = u
+                d = L2.first_diff(cw, cr, "", empties)
                 if d is None:
                     ok5 = True
                 elif g5 is None:
@@ -328,6 +423,18 @@ def run(fx, chk, tier):
             chk.note("%s: layout comparison not applied (%s); S1/S3/S4 only" % (s, LEVEL_REASON.get(s, "")))
             chk.trust("rung 3: %s -- %s" % (s, LEVEL_REASON.get(s, "")))
         else:
+            # A difference that involves a construct the extractor has no vocabulary for says nothing about the code:
+            # the box is recorded as not compared (evidence: counts["S:boxes not compared"]) instead of reported.
+            if s2_bad is not None and unk2:
+                chk.note("%s: size agreement not decided (the extraction contains `%s`, which is outside the layout vocabulary)" % (s, unk2))
+                chk.ok("S2", s + "|size", "not compared: `%s` is outside the layout vocabulary" % unk2, wsite)
+                INCONCLUSIVE.add(s)
+                s2_bad = None
+                s5_bad = None if unk5 or True else s5_bad
+            if s5_bad is not None and unk5:
+                chk.note("%s: field-level layout comparison not decided (the extraction contains `%s`, which is outside the layout vocabulary)" % (s, unk5))
+                INCONCLUSIVE.add(s)
+                s5_bad = None
             chk.require(s2_bad is None, "S2", s + "|size", "box_size() == written bytes in %d cells" % len(m.cells),
                         "%s: box_size() is %s but write_box emits %s bytes in cell %s%s" % (s, s2_bad[2], s2_bad[1], cell_str(s2_bad[0]), (" [" + "; ".join(s2_bad[3][:2]) + "]") if s2_bad[3] else "") if s2_bad else "", wsite)
             if lvl == 2:
@@ -375,6 +482,9 @@ def run(fx, chk, tier):
                             "%s.%s is not initialised from stream data by read_box (%s)" % (s, nm, "set to a constant" if src == "const" else "no source found"), rsite)
     chk.analysed["box_types"] = len(ms)
     chk.analysed["cells"] = ncells
+    chk.analysed["boxes_not_compared"] = sorted(INCONCLUSIVE)
+    # fail closed if the extractor stops understanding most of the code: at least 40 of the box types must be compared
+    chk.floor("S2", "box types whose layouts were extracted within the vocabulary", len(ms) - len(INCONCLUSIVE), 40)
     return chk.finish(
         "other",
         "Layouts of write_box, read_box and box_size() of %d box types are extracted from HIR and compared in %d shape cells (every consistent assignment of the version/flag/presence conditions), "
